@@ -134,3 +134,9 @@ pub open spec fn pins<'a, T: Queryable + 'a, F: Fn(Pointer<'a, T>) -> Data<'a, T
 pub open spec fn nodey<'a, T: Queryable + 'a, F: Fn(Pointer<'a, T>) -> Data<'a, T>>(f: F) -> bool {
     forall|p: Pointer<'a, T>, o: Data<'a, T>| #[trigger] f.ensures((p,), o) ==> is_nodes(o)
 }
+
+// the state `State::root(root)` builds (abstract: only its shape is known)
+pub uninterp spec fn root_state<'a, T: Queryable>(root: &'a T) -> State<'a, T>;
+pub broadcast axiom fn axiom_root_state<'a, T: Queryable>(root: &'a T)
+    ensures (#[trigger] root_state(root)).root == root,
+            root_state(root).data matches Data::Ref(p) && nd(p) == (Node { inner: root, path: root_path() });
